@@ -62,7 +62,10 @@ JUMPS = set(opcode.hasjrel) | set(opcode.hasjabs)
 
 
 def eligible(co):
-    """No exception handlers, raises, or generator suspension points."""
+    """A *function* (incl. lambdas and comprehensions; not a class body or
+    module) without exception handlers, raises, or generator suspension points."""
+    if not (co.co_flags & 0x1):  # CO_OPTIMIZED: function-like code object
+        return False
     if co.co_flags & (CO_GENERATOR | CO_COROUTINE | CO_ASYNC_GENERATOR | CO_ITERABLE_COROUTINE):
         return False
     if getattr(co, "co_exceptiontable", b""):
